@@ -255,6 +255,10 @@ impl<'a> MessageView<'a> {
 
     /// Returns the value at `index`, if any.
     pub fn get_value(&self, index: usize) -> Option<&[u8]> {
+        if index >= self.len() {
+            return None;
+        }
+
         let header = 8 * self.len();
 
         let offsets = self.offsets();
